@@ -27,7 +27,7 @@ MANIFEST = {
     "text": "A monitored fake signal is updated by virtual-time timers with unique values while pauses and suspensions "
             "land at every loop handle; every update must be reported exactly when the engine is running inside the open "
             "run, and no engine callback may remain on the signal afterwards.",
-    "note": "Two monitor plans x all coordinates x 4 kinds.",
+    "note": "Monitor plans x all coordinates x 4 kinds, request pairs around the first monitor message, a document consumer writing to the signal on RunStop.",
     "design_ref": "3 (C41)",
 }
 PLANS_Q = ["custom_mon", "mon2"]
